@@ -2888,6 +2888,18 @@ func (d *Document) parseSectionProperties(decoder *xml.Decoder, startElement xml
 				if err := d.skipElement(decoder, t.Name.Local); err != nil {
 					return nil, err
 				}
+			case "titlePg":
+				// 首页不同
+				sectPr.TitlePage = &TitlePage{}
+				if err := d.skipElement(decoder, t.Name.Local); err != nil {
+					return nil, err
+				}
+			case "pgNumType":
+				// 页码格式
+				sectPr.PageNumType = &PageNumType{Fmt: getAttributeValue(t.Attr, "fmt")}
+				if err := d.skipElement(decoder, t.Name.Local); err != nil {
+					return nil, err
+				}
 			case "headerReference":
 				ref := &HeaderFooterReference{
 					Type: getAttributeValue(t.Attr, "type"),
